@@ -231,6 +231,10 @@ pub fn users(who: &Who) -> [String; 3] {
 pub struct Built {
     pub chain: Chain,
     pub ghost: Ghost,
+    /// (paid amount, minted amount) of the most recent successful stake
+    pub last_stake: Option<(T, T)>,
+    /// (user, paid amount, minted amount) when a user unstaked exactly what the last stake minted
+    pub roundtrip: Option<(String, T, T)>,
 }
 
 fn v(name: &str) -> Uint128 {
@@ -324,7 +328,7 @@ pub fn build(s: &Structure) -> Built {
     chain.w.supply.insert(lst.clone(), sn.l.clone());
     chain.w.created.push((who.contract.clone(), addr::SUBDENOM.to_string()));
     chain.trace.clear();
-    Built { chain, ghost }
+    Built { chain, ghost, last_stake: None, roundtrip: None }
 }
 
 pub fn refundable(sn: &Snap, denom: &str) -> Vec<T> {
